@@ -165,6 +165,13 @@ def encode_sequential(rng, stats, nmsgs, cs_changes=True, max_len=700):
     out = bytearray()
     expect = []
     csids = [pick_csid(rng) for _ in range(rng.range(1, 4))]
+    if rng.chance(1, 3):
+        # chunk stream ids that a mis-computed multi-byte csid would confuse: same low byte / neighbouring high byte,
+        # carries out of the "+ 64", the form boundaries
+        base = rng.choice([rng.range(320, 65599), rng.range(64 + 192, 64 + 255) + 256 * rng.range(0, 254), rng.range(64, 319)])
+        near = [base + d for d in (-256, 256, -64, 64, -1, 1, -512, 255, -255) if 2 <= base + d <= 65599]
+        csids = [base] + [rng.choice(near) for _ in range(rng.range(1, 3))]
+        bump(stats, "aliasing_csid_sets")
     for (typ, msid, ts, data) in gen_messages(rng, nmsgs, max_len):
         if cs_changes and rng.chance(1, 6):
             n = rng.choice([1, 2, 3, 64, 127, 128, 129, 200, 4096, 65536, 0x7FFFFFFF, rng.range(1, 500)]) if max_len <= 1000 else rng.choice([128, 4096, 65536, 0x7FFFFFFF, 70000])
